@@ -246,6 +246,8 @@ pub fn dispatch(t: &[&str]) -> Option<Out> {
         // sm2_kex <dA> <dB> <idA> <idB> <klen> <rA> <rB> <tamper>
         //   tamper: comma list of ra|rb|sb|sa (flip one bit of that message in transit) or "-"
         "sm2_kex" => return Some(kex(t)),
+        // sm2_kexseq <dA> <dB> <idA> <idB> <klen> <rA1,rA2,..> <rB1,rB2,..>: honest sessions on ONE long-lived pair of objects
+        "sm2_kexseq" => return Some(kexseq(t)),
         // sign then verify with the library itself: sm2_sv <d> <id> <msg> <cands>
         "sm2_sv" => {
             let sk = match Sm2PrivateKey::new(&unhex(t[1])) { Ok(k) => k, Err(e) => return Some(Out::Err(errname(e))) };
@@ -390,6 +392,31 @@ fn flip(p: &Point) -> Point {
     let x = u256_from_be_bytes(&b[1..33]);
     let y = u256_from_be_bytes(&b[33..65]);
     vh::to_jacobi(&vh::fp_to_mont(&x), &vh::fp_to_mont(&y))
+}
+
+fn kexseq(t: &[&str]) -> Out {
+    let ska = match Sm2PrivateKey::new(&unhex(t[1])) { Ok(k) => k, Err(e) => return Out::Err(errname(e)) };
+    let skb = match Sm2PrivateKey::new(&unhex(t[2])) { Ok(k) => k, Err(e) => return Out::Err(errname(e)) };
+    let ida = leak(t[3]);
+    let idb = leak(t[4]);
+    let klen: usize = t[5].parse().unwrap();
+    let pka = ska.to_public_key();
+    let pkb = skb.to_public_key();
+    let mut a = match Exchange::new(klen, ida, &pka, &ska, idb, &pkb) { Ok(x) => x, Err(e) => return Out::Err(errname(e)) };
+    let mut b = match Exchange::new(klen, idb, &pkb, &skb, ida, &pka) { Ok(x) => x, Err(e) => return Out::Err(errname(e)) };
+    let mut outs = vec![];
+    for (i, (ca, cb)) in t[6].split(',').zip(t[7].split(',')).enumerate() {
+        push_cands(&format!("{},{}", ca, cb));
+        let ra = match a.exchange_1() { Ok(p) => p, Err(e) => { vh::clear(); return Out::Err(format!("s{}step1:{}", i, errname(e))) } };
+        let r2 = b.exchange_2(&ra);
+        vh::clear();
+        let (rb, sb) = match r2 { Ok(x) => x, Err(e) => return Out::Err(format!("s{}step2:{}", i, errname(e))) };
+        let sa = match a.exchange_3(&rb, sb) { Ok(x) => x, Err(e) => return Out::Err(format!("s{}step3:{}", i, errname(e))) };
+        match b.exchange_4(sa, &ra) { Ok(true) => {}, Ok(false) => return Out::Err(format!("s{}step4:false", i)), Err(e) => return Out::Err(format!("s{}step4:{}", i, errname(e))) };
+        outs.push(format!("{} {} {} {} {} {}", hx(&ra.to_byte_be(false)), hx(&rb.to_byte_be(false)), hx(&sb), hx(&sa),
+            hx(&a.verif_key().unwrap()), hx(&b.verif_key().unwrap())));
+    }
+    Out::Ok(outs.join(" | "))
 }
 
 fn kex(t: &[&str]) -> Out {
